@@ -140,8 +140,28 @@ NOTES = {
  'C13-axle-skips-command-following-terminal': 'Axle skips terminals that FOLLOW a command getter when it relays: such a terminal keeps its older followed command (or none)',
  'C15-history-getter-holds-clock-borrow-across-history': 'GetterFromHistory::get keeps its borrow of the clock alive while it asks the history: a history that takes exclusive access to the shared clock panics',
  'C20-encoder-skips-reading-with-held-stamp': 'encoder wrapper skips a reading whose STAMP equals the one its terminal already holds, although the value differs (coarse encoder clock)',
+ 'C02-exponent-one-half-uses-sqrt': 'ExponentStream takes sqrt when the exponent is exactly 0.5: differs from the power function for a base of -0.0 (sign of zero) and -inf (NaN instead of +inf)',
+ 'C04-derivative-relative-noise-floor': 'PID derivative set to 0 when two consecutive errors differ by no more than EPSILON x |error| (neighbouring floats of an error of ordinary size)',
+ 'C05-pid-skips-non-finite-sample-keeps-error': 'PID skips a non-finite sample and keeps its last output - which may be an error: Err(e), then a NaN / inf sample, leaves get() returning Err(e)',
+ 'C12-ewma-zero-smoothing-passes-through': 'EWMA with smoothing exactly 0.0 uses weight 1 instead of 0 ("skip powf" fast path on the wrong end of the range)',
+ 'C16-safe-from-reference-unsafe': '`impl From<ReferenceUnsafe<T>> for Reference<T>`: the unsafe enum\'s variants are public, so safe code can now wrap a raw pointer to a local in a Reference',
+ 'C17-to-dyn-rc-unimplemented-in-alloc-only-build': 'rrtk built with alloc but without std: the two no_std copies of the to_dyn! helper "folded into one" that only knows the pointer variant - converting an Rc-backed Reference hits unimplemented!()',
+ 'C19-libm-with-micromath-uses-micromath-powf': 'no_std with libm AND micromath enabled: the power function is micromath\'s approximation instead of libm\'s',
+ 'C20-encoder-skips-equal-datum-signed-zero': 'encoder wrapper skips the write when the new datum == the held one: a reading that differs only in the sign of a zero is not relayed',
 }
 HISTORY = {
+ 'C02-exponent-one-half-uses-sqrt': 'MISSED at both tiers, for two reasons: the exponent node\'s VALUE was not judged at all in the stream world (only category and stamp; values of the power function were left to C19\'s '
+   'cross-build comparison, which cannot see a change that every build shares), and exponent 0.5 with a base of -0.0 / -inf was never drawn. In builds with std the model now expects `f32::powf` bit for bit, a fourth '
+   'enumerated block runs the five binary f32 combinators over a 16 x 16 grid of landmark values (NaN, +-inf, +-MAX, +-0, subnormals, 0.5, 1, 2, 3, -1, ...), and random leaves draw such landmarks too. Caught at quick tier since.',
+ 'C16-safe-from-reference-unsafe': 'MISSED at both tiers: the change alters no program that compiled before. Five more negative compile probes (`callers/safe_route_probes`, one binary each, no `unsafe`): `Reference::from(ReferenceUnsafe::Ptr(p))`, '
+   'the same through `.into()`, the tuple constructor, `ReferenceUnsafe::borrow`, `Reference::from_ptr` without unsafe. Each must be rejected with the expected error code; a probe that builds is `C16|safe_route_to_reference|<probe>`. '
+   'Caught at quick tier since.',
+ 'C17-to-dyn-rc-unimplemented-in-alloc-only-build': 'MISSED at both tiers: the reference histories ran only against rrtk built with std (in the no_std variants of the simulator that world was compiled out). They now also run in the '
+   'simulator linked against rrtk built with alloc + libm, on the two variants that exist there (pointer, Rc). Caught at quick tier since (`C17|to_dyn_panics|rc_ref_cell`).',
+ 'C19-libm-with-micromath-uses-micromath-powf': 'MISSED at both tiers: no build enabled both no_std float back ends. An eleventh build (alloc + libm + micromath, compared under the libm rules: 4 ulps on the direct power-function grid) was '
+   'added. Caught at quick tier since.',
+ 'C20-encoder-skips-equal-datum-signed-zero': 'caught by C20/thorough only (the minimiser\'s zeros found it). Encoder components are now zeros of either sign 12 % of the time, and half of the readings that reuse the previous stamp are the '
+   'previous reading with the signs of its zeros flipped. Caught at quick tier since.',
  'C03-sum-pairwise-above-eight-drops-stamp': 'MISSED at both tiers: n-ary combinators were built with at most eight inputs. A tenth of the random stream plans now use up to twelve, and the free-magma payload world builds sums and '
    'products of 9..12, 16 and 33 inputs (the grouping of the fold is part of what it fingerprints). Caught at quick tier since (`C03|stream_timestamp|sum`).',
  'C08-geartrain-meshing-fast-path-squares': 'MISSED at both tiers: device readings were scaled 1/8..64. 6 % of the C08 runs now scale all readings by 1e19..1e30 or 1e-20..1e-27 (values whose squares leave the f32 range although they, '
